@@ -1,7 +1,11 @@
 #!/bin/sh
-# run every thorough command once, end to end, three at a time (each uses a 16-process pool), longest first
+# run thorough commands once, end to end, three at a time (each uses a 16-process pool), longest first;
+# usage: thorough_all.sh [ID ...]   (default: all claimed properties)
 cd "$(dirname "$0")/.." 2>/dev/null || cd .
 python3 vlib/bootstrap.py
-printf '%s\n' C03 C01 C06 C02 C07 C08 C09 C15 C13 C12 C10 C11 C16 C19 C14 C17 C20 C04 C05 | xargs -P 3 -I{} sh -c './check {} --tier thorough > thorough_{}.log 2>&1; echo "{} exit $?" >> thorough_status.txt'
+LIST="$*"
+[ -n "$LIST" ] || LIST="C03 C01 C06 C02 C07 C08 C09 C15 C13 C12 C10 C11 C16 C19 C14 C17 C20 C04 C05"
+rm -f thorough_status.txt
+printf '%s\n' $LIST | xargs -P 3 -I{} sh -c './check {} --tier thorough > thorough_{}.log 2>&1; echo "{} exit $?" >> thorough_status.txt'
 grep -h "RESULT" thorough_*.log
 ! grep -v "exit 0" thorough_status.txt
